@@ -123,6 +123,31 @@ impl Rng {
         self.bytes(n)
     }
 
+    /// With probability 1/4 overwrite the first bytes with what real FLV media starts with
+    /// (AVC/AAC sequence headers and frames): code that looks into media payloads keys on these.
+    pub fn flv_prefix(&mut self, type_id: u8, data: &mut [u8]) {
+        if data.len() < 2 || !self.chance(1, 4) {
+            return;
+        }
+        let p: [u8; 2] = match type_id {
+            9 => *self.pick(&[[0x17, 0x00], [0x17, 0x01], [0x27, 0x01], [0x17, 0x02], [0x12, 0x00]]),
+            8 => *self.pick(&[[0xAF, 0x00], [0xAF, 0x01], [0x2F, 0x00], [0xAE, 0x00]]),
+            _ => *self.pick(&[[0x17, 0x00], [0xAF, 0x00], [0x02, 0x00]]),
+        };
+        data[0] = p[0];
+        data[1] = p[1];
+    }
+
+    /// With probability 1/5 append characters outside ASCII (2-, 3- and 4-byte UTF-8): lengths on
+    /// the wire are byte counts, not character counts.
+    pub fn spice(&mut self, s: String) -> String {
+        if self.chance(1, 5) {
+            format!("{}{}", s, self.pick(&["\u{e9}", "\u{4e2d}\u{6587}", "\u{1f600}", "\u{df} x", "\u{e9}\u{4e2d}\u{1f600}"]))
+        } else {
+            s
+        }
+    }
+
     pub fn shuffle<T>(&mut self, xs: &mut [T]) {
         for i in (1..xs.len()).rev() {
             let j = self.below(i as u64 + 1) as usize;
